@@ -3,11 +3,13 @@ package main
 import (
 	"net/http"
 	"net/url"
+	"regexp"
 	"strings"
 
 	"github.com/justinas/alice"
 	middlewareapi "github.com/oauth2-proxy/oauth2-proxy/v7/pkg/apis/middleware"
 	"github.com/oauth2-proxy/oauth2-proxy/v7/pkg/apis/options"
+	sessionsapi "github.com/oauth2-proxy/oauth2-proxy/v7/pkg/apis/sessions"
 	"github.com/oauth2-proxy/oauth2-proxy/v7/pkg/middleware"
 	"github.com/oauth2-proxy/oauth2-proxy/v7/providers"
 )
@@ -262,4 +264,58 @@ func vh_C13_signin() {
 		verifAssert("C01.signin.converse", g.rw.status == 302)
 	}
 	verifAssert("C01.signin.never-upstream", g.upstream == 0)
+}
+
+//assume: C01.dispatch: gorilla/mux is executed from its source with the real route table of buildServeMux; the session chain is a marker middleware that may or may not put a session in scope (the real loaders are C01.load/C12.seq); request paths are clean rooted paths needing no escaping (mux redirects unclean ones); the OAuth start/callback and embedded static-file routes are excluded here (C03 flow harnesses; net/http FileServer)
+
+var vDispatchPath = regexp.MustCompile(`^(/[A-Za-z0-9_~$&+,;=:@-][A-Za-z0-9._~$&+,;=:@-]*)+/?$`)
+
+// the real route table: whatever the path, the upstream is reached only through the session
+// chain and the Proxy gate; the auth-only, user-info and sign-out endpoints sit behind the
+// session chain and never reach the upstream
+// verif: unwind=24 strlen=12 unblock=github.com/gorilla/mux also=C19 steps=6000000 paths=60000
+func vh_C01_dispatch() {
+	g := vNewGate()
+	g.prov.data = &providers.ProviderData{}
+	g.scope.Session = nil
+	sessionLoads := 0
+	var loaded *sessionsapi.SessionState
+	if ndBool("loader-finds-session") {
+		loaded = vSessionMain("loaded")
+	}
+	g.p.sessionChain = alice.New(func(next http.Handler) http.Handler {
+		return http.HandlerFunc(func(rw http.ResponseWriter, req *http.Request) {
+			sessionLoads++
+			middlewareapi.GetRequestScope(req).Session = loaded
+			next.ServeHTTP(rw, req)
+		})
+	})
+	g.p.preAuthChain = alice.New()
+	g.p.ProxyPrefix = "/oauth2"
+	g.p.SignInPath = "/oauth2/sign_in"
+	g.p.buildServeMux("/oauth2")
+	path := g.req.URL.Path
+	verifAssume(vDispatchPath.MatchString(path))
+	verifAssume(path != "/oauth2/start" && path != "/oauth2/callback" && !strings.HasPrefix(path, "/oauth2/static/"))
+	byp := g.bypass()
+	g.p.ServeHTTP(g.rw, g.req)
+	s := g.scope.Session
+	if g.upstream > 0 {
+		verifReach("upstream")
+		verifAssert("C01.dispatch.upstream-only-behind-session-chain", sessionLoads == 1)
+		verifAssert("C01.dispatch.upstream-only-if", vOr(byp, vAnd(s != nil, g.prov.authorized, vOr(s == nil || s.Email == "", g.validatorOK))))
+		// (unknown paths under the prefix fall through to the Proxy gate like any application path)
+		verifAssert("C01.dispatch.proxy-endpoints-never-reach-upstream", path != "/oauth2/auth" && path != "/oauth2/userinfo" && path != "/oauth2/sign_out" && path != "/oauth2/sign_in" && path != "/robots.txt")
+	}
+	if path == "/oauth2/auth" || path == "/oauth2/userinfo" || path == "/oauth2/sign_out" {
+		verifReach("session-endpoints")
+		verifAssert("C01.dispatch.endpoint-behind-session-chain", sessionLoads == 1)
+	}
+	if g.rw.status == 202 {
+		verifAssert("C01.dispatch.202-only-from-auth-endpoint", path == "/oauth2/auth" && vOr(byp, vAnd(s != nil, g.prov.authorized, vOr(s == nil || s.Email == "", g.validatorOK))))
+	}
+	if path != "/oauth2/sign_in" && path != "/robots.txt" {
+		verifReach("application-path")
+		verifAssert("C01.dispatch.application-paths-load-the-session", sessionLoads == 1)
+	}
 }
